@@ -21,7 +21,8 @@ func c07Decl(opts flags.Options) *decl.Decl {
 	top.Groups = []*decl.Group{{Field: "NS", Name: "Namespaced", Namespace: "ns", Opts: []*decl.Opt{{Field: "O", Short: "o", Long: "opt", Type: decl.TString}}}}
 	deep := &decl.Cmd{Field: "Deep", Name: "deep", Opts: []*decl.Opt{{Field: "Depth", Short: "d", Long: "depth", Type: decl.TInt}}}
 	add := &decl.Cmd{Field: "Add", Name: "add", SubOptional: true, Cmds: []*decl.Cmd{deep}, Opts: []*decl.Opt{{Field: "Force", Short: "f", Long: "force", Type: decl.TBools}}}
-	rm := &decl.Cmd{Field: "Rm", Name: "rm", Opts: []*decl.Opt{{Field: "Recursive", Short: "r", Long: "recursive", Type: decl.TBools}}}
+	rm := &decl.Cmd{Field: "Rm", Name: "rm", Opts: []*decl.Opt{{Field: "Recursive", Short: "r", Long: "recursive", Type: decl.TBools}},
+		Pos: []*decl.PosArg{{Field: "Count", Type: decl.TInt}}}
 	top.Cmds = []*decl.Cmd{add, rm}
 	d := &decl.Decl{Top: top, Options: opts}
 	return d.Finish()
@@ -33,6 +34,7 @@ var c07Units = [][]string{
 	// near misses: unknown everywhere
 	{"--Verbose"}, {"--verb"}, {"--verbos"}, {"--verbosee"}, {"--opt"}, {"--ns.ns.opt"}, {"--ns.op=1"}, {"--OPT"}, {"--opt=3"},
 	{"-x"}, {"-vx"}, {"-xv"}, {"-V"}, {"--unk=val"}, {"-x=val"}, {"-è5"}, {"--ns.Opt=1"},
+	{"--50%off"}, {"-v%"}, {"-v\x00"}, {"-75"}, {"5"},
 }
 
 func init() {
@@ -61,6 +63,9 @@ func init() {
 		}
 		if warm != 0 {
 			maxDepth-- // the reused-parser variants go one unit less deep
+		}
+		if pol.handler != ref.NoHandler && pol.handler != ref.HandlerKeep {
+			maxDepth-- // so do the handler variants that rewrite the arguments
 		}
 		n := c.Choose(maxDepth + 1)
 		var argv []string
@@ -176,7 +181,7 @@ func init() {
 		ShardDepth: 3,
 		Body:       body,
 		Rule: "declaration with case-sensitive, namespaced and non-ASCII names and options that exist only in sibling / deeper commands; 7 policies (fail, fail+PassDoubleDash, IgnoreUnknown, handler returning the arguments unchanged / dropping the next / " +
-			"inserting a token / returning an error) x {tags, API} x {fresh parser, parser that already parsed a vector selecting add/deep, selecting rm} x every sequence of <= 4 (quick) / <= 5 (thorough) units over 12 valid tokens and 17 near misses (case flips, prefixes, one character dropped/added/changed, " +
+			"inserting a token / returning an error) x {tags, API} x {fresh parser, parser that already parsed a vector selecting add/deep, selecting rm} x every sequence of <= 4 (quick) / <= 5 (thorough) units over 12 valid tokens and 22 near misses (case flips, names containing % or a NUL character, an unknown -<digits> token while an int positional is pending, prefixes, one character dropped/added/changed, " +
 			"namespace missing/doubled/case-changed, unknown character at either end of a cluster, inline arguments, a neighbouring non-ASCII letter); oracle = CLM scope tables and handler call log",
 		Assumptions:  []string{"the name passed to the handler for a multi-character cluster is not asserted", "values of flags that precede an unknown character inside one cluster are not asserted"},
 		RequiredHits: []string{"unknown-rejected", "handler-called", "continued-after-unknown", "after-earlier-parse"},
